@@ -26,6 +26,8 @@ type gen struct {
 	findings   []finding
 	predEvals  int
 	thorough   bool
+	lastLine   string
+	quiet      bool // execute ops on the implementation only (not sent to the model): used where the Lean run would be too slow
 }
 
 type finding struct {
@@ -45,6 +47,11 @@ func (g *gen) bytes(n int) []byte {
 func (g *gen) op(format string, a ...interface{}) string {
 	line := fmt.Sprintf(format, a...)
 	out := execOp(g.st, line)
+	if g.quiet {
+		g.counts["implonly-ops"]++
+		g.lastLine = line
+		return out
+	}
 	g.ops = append(g.ops, line)
 	g.impl = append(g.impl, out)
 	kind := line
